@@ -99,7 +99,7 @@ SPEC = {
         "C15_skeleton_type_triggerSettings", "C15_skeleton_Hook_WorkerPool", "C15_skeleton_triggerSettings_hasWorkerPool",
         "C15_skeleton_OrderedMap_ForEach", "C15_skeleton_OrderedMap_Delete", "C15_skeleton_OrderedMap_Set",
         "C15_skeleton_OrderedMap_Clear", "C15_skeleton_OrderedMap_ForEachReverse", "C15_skeleton_orderedmap_bodies",
-        "C15_orderedmap_wellformed", "C15_orderedmap_frozen_pointers", "C15_orderedmap_queries", "C15_orderedmap_walk", "C15_registry_simulation", "C15_registry_simulation_step",
+        "C15_orderedmap_wellformed", "C15_orderedmap_frozen_pointers", "C15_orderedmap_queries", "C15_orderedmap_walk", "C15_registry_simulation", "C15_registry_simulation_step", "C15_weak_iteration_code",
     ],
     "trusted_base": [
         "hand-written models Hive/Model/Events*.lean of runtime/event, runtime/promise, runtime/valuenotifier and of "
